@@ -597,8 +597,8 @@ class Pointwise:
                 return f"(if {self.cond(e.args[0])} then {self.expr(e.args[1], mask)} else {self.expr(e.args[2], mask)})"
             if ch == "np.expand_dims" and len(e.args) == 2 and not e.keywords:
                 return self.expr(e.args[0], mask)          # broadcasting: the same cell value
-            if ch == "np.sum" and len(e.args) == 1 and [k.arg for k in e.keywords] == ["axis"] \
-                    and isinstance(e.keywords[0].value, ast.Constant) and e.keywords[0].value.value == 1:
+            if ch == "np.sum" and len(e.args) == 1 and {k.arg for k in e.keywords} <= {"axis", "keepdims"} \
+                    and any(k.arg == "axis" and isinstance(k.value, ast.Constant) and k.value.value == 1 for k in e.keywords):
                 n0 = self.name_of(e.args[0])
                 if n0 is not None:
                     self.notes.append(f"`{ast.unparse(e)}` is the parameter `{n0}_rowsum` (the sum of the cell's row)")
